@@ -76,7 +76,10 @@ type Manager struct {
 	ifDown      map[uint32]bool
 	ifDownCount map[string]int
 	peerNodeID  string
-	mu          sync.RWMutex
+	// lastPeerTimestampNs is the build time (sender clock) of the newest
+	// heartbeat handled since the last peer loss.
+	lastPeerTimestampNs int64
+	mu                  sync.RWMutex
 
 	garpCancels map[string]context.CancelFunc
 }
@@ -413,6 +416,18 @@ func (m *Manager) RequestSwitchover(ctx context.Context, srgNames []string, forc
 
 func (m *Manager) handlePeerHeartbeat(msg *hapb.HeartbeatMessage) {
 	m.mu.Lock()
+	// Heartbeats reach us over two streams (our client stream and the
+	// peer's), so an older snapshot can arrive after a newer one. Acting on
+	// it would re-run the election rules on an outdated peer state (e.g. undo
+	// a completed switchover). Both timestamps come from the sender's clock,
+	// so no clock synchronisation is needed to order them.
+	if msg.TimestampNs < m.lastPeerTimestampNs {
+		m.mu.Unlock()
+		m.logger.Debug("Ignoring heartbeat older than one already handled",
+			"timestamp_ns", msg.TimestampNs, "newest_ns", m.lastPeerTimestampNs)
+		return
+	}
+	m.lastPeerTimestampNs = msg.TimestampNs
 	firstContact := m.peerNodeID == ""
 	m.peerNodeID = msg.NodeId
 	for _, s := range msg.SrgStatuses {
@@ -471,6 +486,9 @@ func (m *Manager) handlePeerHeartbeat(msg *hapb.HeartbeatMessage) {
 func (m *Manager) handlePeerLost() {
 	m.mu.Lock()
 	m.peerNodeID = ""
+	// A peer that comes back (possibly restarted, possibly with a corrected
+	// clock) starts a new ordering.
+	m.lastPeerTimestampNs = 0
 	m.mu.Unlock()
 
 	for _, sm := range m.srgs {
